@@ -430,7 +430,7 @@ class Judge:
         if w[0] in ("fault", "faultfrom"):
             self.armed = int(w[1]) > 0
             return None if line == "ok" else "harness rejected the operation"
-        if w[0] == "huge":
+        if w[0] in ("huge", "hugeseq"):
             # self-checking pass of the harness over a multi-GiB vector: it reports `ok` or the first mismatch
             self.ideal = None
             return None if line == "ok live=0" else "self-checking pass `%s`: %s" % (op, line[:200])
@@ -530,7 +530,7 @@ def safe(ops, mode):
         try:
             if w[0] in ("fault", "faultfrom"):
                 continue
-            if w[0] in ("end", "huge"):
+            if w[0] in ("end", "huge", "hugeseq"):
                 ideal = None
                 continue
             if w[0] == "new":
